@@ -146,6 +146,13 @@ func witnesses() []wit {
 		ws = append(ws, wit{"first-letter-lost", "any ::first-letter style: firstLetterToBox removes the first letter from the text box and builds a box for it, but prepends that box to the children of the new letter text box instead of the line / inline box, so the letter is in no laid-out box (and is not drawn)",
 			Input{HTML: html, Flows: []Flow{{ID: "", Kind: "main", Text: frag(a)}}, Mode: "witness"}})
 	}
+	{
+		head := `<style>@page{size:100px 200px;margin:0}html{margin:0;padding:0}body{font-family:ahem;font-size:8px;line-height:1;margin:0}</style>`
+		fl := `w3q`
+		html := head + `<body><div>w1q w2q<span id="f1" style="float:right;width:3em">` + fl + `</span>w4qA w5qABCDE</div></body>`
+		ws = append(ws, wit{"word-lost-before-float", "`w1q w2q<float>w4qA`: the float does not fit beside `w1q w2qw4qA` and is put on the waiting list, `w4qA` does not fit either and has no break opportunity before it, so the line is broken inside the text before the float (after `w1q `); splitInlineBox then moves a resume point that lies before a float already handled to just after that float (`if resumeIndex < floatResumeAt { resumeAt = {floatResumeAt: nil} }`): the word between the break and the float is laid out on no line - and here the float itself is laid out nowhere either",
+			Input{HTML: html, Flows: []Flow{{ID: "", Kind: "main", Text: "w1qw2qw4qAw5qABCDE"}, {ID: "f1", Kind: "float", Text: fl, Prev: "w2q", Next: "w4q"}}, Mode: "witness"}})
+	}
 	return ws
 }
 
